@@ -347,6 +347,7 @@ func RunC05(c *Ctx) {
 		window, nrand = 5000, 4000000
 	}
 	workload.W1R(sink)
+	workload.W1Words(sink)
 	workload.W1D(func(cs *h.Case) {
 		if cs.P[3]>>8 <= 1 { // top-level contexts only
 			sink(cs)
